@@ -204,7 +204,7 @@ PROPS['C18'] = dict(
     level='proof',
     technique='Kani contract check of the real VecZnx read_from/write_to: header bytes fully symbolic, every truncation point, Ok => consistent, Err => metadata unchanged',
     level_text='Complete in the header domain (2^320 headers) for a receiver of fixed capacity: no panic/overflow/OOB on any path, Ok implies size <= max_size and n*cols*max_size*8 <= buffer and fields equal the header, Err leaves metadata unchanged; every truncation point of a valid stream is rejected.',
-    level_note='Receiver capacity fixed at 32 bytes (the code is capacity-generic); round trip is bounded in shape (thorough tier); GLWE/LWE/GLWECompressed wrappers are covered for truncation; the compound wrapper types (GGLWE, GGSW, keys, bin-fhe keys) still commit scalar fields before the inner read (DESIGN §6-5) and are not covered.',
+    level_note='Receiver capacity fixed at 32 bytes (the code is capacity-generic); round trip is bounded in shape (thorough tier); GLWE/LWE/GLWECompressed and the compound wrappers GGLWE, GGSW, GLWESwitchingKey, GLWEAutomorphismKey, GLWEPublicKey, GGLWECompressed are covered for truncation at one concrete shape each (the wrapper code is shape-generic: straight-line field reads around the inner read); tensor/LWE-switching keys delegate to these; the multi-key containers of poulpy-bin-fhe are not covered.',
     units=[
         K('poulpy-hal', 'layouts::vec_znx::verif_kani', ['c18_vec_znx_read_header', 'c18_vec_znx_read_truncated'], cls='complete', timeout=1500,
           functions=['<VecZnx as ReaderFrom>::read_from']),
@@ -214,12 +214,20 @@ PROPS['C18'] = dict(
           functions=['<MatZnx as ReaderFrom>::read_from']),
         K('poulpy-cpu-ref', 'verif_kani::c18_wrappers', ['c18_glwe_read_truncated', 'c18_lwe_read_truncated', 'c18_glwe_compressed_read_truncated'], cls='complete', timeout=900,
           functions=['<GLWE as ReaderFrom>::read_from', '<LWE as ReaderFrom>::read_from', '<GLWECompressed as ReaderFrom>::read_from (every truncation point of a valid stream: Err leaves metadata unchanged)']),
+        K('poulpy-cpu-ref', 'verif_kani::c18_compound', ['c18_gglwe_read_truncated', 'c18_ggsw_read_truncated', 'c18_switching_key_read_truncated', 'c18_automorphism_key_read_truncated',
+          'c18_public_key_read_truncated', 'c18_gglwe_compressed_seed_count_rejected'], cls='complete', timeout=900,
+          functions=['<GGLWE as ReaderFrom>::read_from', '<GGSW as ReaderFrom>::read_from', '<GLWESwitchingKey as ReaderFrom>::read_from', '<GLWEAutomorphismKey as ReaderFrom>::read_from',
+                     '<GLWEPublicKey as ReaderFrom>::read_from', '<GGLWECompressed as ReaderFrom>::read_from (every truncation point of a valid stream: Err leaves base2k/dsize/degrees/p/dist/k unchanged; a seed count above the receiver\'s is rejected for every 20-byte header)']),
+        K('poulpy-bin-fhe', 'blind_rotation::lut::verif_kani::c18_brk', ['c18_blind_rotation_key_read_header', 'c18_blind_rotation_key_compressed_read_header'], cls='complete', timeout=900,
+          functions=['<BlindRotationKey as ReaderFrom>::read_from', '<BlindRotationKeyCompressed as ReaderFrom>::read_from (16-byte header fully symbolic, every truncation point, receiver without key elements: Err leaves dist unchanged, Ok only for a complete valid header)']),
+        K('poulpy-cpu-ref', 'verif_kani::c18_compound', ['c18_gglwe_compressed_read_truncated'], cls='complete', tier='thorough', timeout=1800,
+          functions=['<GGLWECompressed as ReaderFrom>::read_from (every truncation point; 9 min, 10 GB)']),
         K('poulpy-hal', 'layouts::vec_znx::verif_kani', ['c18_vec_znx_round_trip__coeffs4'], cls='bounded', tier='thorough', timeout=2400,
           bound='n*cols*size <= 4 coefficients, contents symbolic', functions=['<VecZnx as WriterTo>::write_to']),
     ],
     trusted_base=[FMT_STUB, 'std::io::Cursor / byteorder as compiled by Kani'],
     assumptions=[],
-    remainder='wrapper types (GLWE, GGLWE, GGSW, keys, compressed forms), cross-backend byte format (syntactic: no backend type parameter in these layouts)',
+    remainder='GGSWCompressed and the compressed key wrappers, multi-key containers beyond their own header (GGLWEToGGSWKey, BlindRotationKey elements, CircuitBootstrappingKey, BDDKey: a failure in element i leaves elements < i already replaced), round trip of the wrappers, cross-backend byte format (syntactic: no backend type parameter in these layouts)',
 )
 
 PROPS['C20'] = dict(
